@@ -85,3 +85,21 @@ Example C01_nonvacuous :
   rfc_parse [129; 127; 128; 0; 0; 0; 0; 0; 0; 0] = PMsb /\
   rfc_parse [129; 126; 0] = PIncomplete.
 Proof. vm_compute. repeat split; reflexivity. Qed.
+
+(* ---- tie C: header_size is what write.go's HeaderSize says now (gen/Translated.v is
+   translated from the Go source on every run), for every header with an int64 length;
+   the rsv byte is read by Rsv1..3 / built by Rsv as the model's bit positions. *)
+Require Import Translated TranslatedOk.
+
+Theorem C01_source_header_size : forall h, (- 2 ^ 63 <= h_len h < 2 ^ 63)%Z ->
+  g_HeaderSize (hdr_of h) = header_size h.
+Proof. exact xl_HeaderSize. Qed.
+Print Assumptions C01_source_header_size.
+
+Theorem C01_source_rsv_bits :
+  (forall r, r < 256 -> forall fin op masked len,
+     let h := g_mk_Header fin (Z.of_N r) op masked len in
+     g_Header_Rsv1 h = N.testbit r 2 /\ g_Header_Rsv2 h = N.testbit r 1 /\ g_Header_Rsv3 h = N.testbit r 0) /\
+  (forall r1 r2 r3, g_Rsv r1 r2 r3 = (4 * b2z r1 + 2 * b2z r2 + b2z r3)%Z).
+Proof. exact (conj xl_Header_Rsv_bits xl_Rsv). Qed.
+Print Assumptions C01_source_rsv_bits.
